@@ -575,16 +575,15 @@ func (root *Root) resolveField(
 	result map[string]interface{},
 	depth int) (ea []error) {
 
+	// One selection can be resolved in different containers, the members of a
+	// list of an interface type for example, so the arguments are checked
+	// against the container at hand every time.
+	if ea = field.checkArgs(t); 0 < len(ea) {
+		Errors(ea).in(field.key())
+		return
+	}
 	if field.ConType == nil {
 		field.ConType = t
-		ea = append(ea, field.checkArgs()...)
-		if 0 < len(ea) {
-			// Not resolvable in this container. Leave the container type
-			// unset so the check is repeated, and reported, every time.
-			field.ConType = nil
-			Errors(ea).in(field.key())
-			return
-		}
 	}
 	var ea2 []error
 	switch field.Name {
